@@ -182,7 +182,7 @@ PROPS = {
         "level_text": "Props/C13: run_respects_bounds — for every run of the stream model (any files, hub, schedule of hub pushes, cursor, options) every delivered event passed the step filter, with a stop block no delivered block is above it and a delivery at the stop height is the last one (stop_block_is_last); filter_only_removes, no_stop_keeps_all, stop_block_delivered — the handler chain as a list transformer; default_filter / final_only_filter / custom_filter — which steps pass; negative_start / nonneg_start — start = max(first streamable, head − distance) saturating at 0; start_after_stop_rejected, final_only_refuses_non_final_cursor — rejected as invalid argument before any source is created. 'The stop block is delivered when it exists' across files/live is decided by the stream monitor.", "level_note": LEVEL_NOTE_COMMON, "explanation": 'theorems for all runs of the model; tie to stream.go by differential runs against the real stream',
     },
     "C11": {
-        "suites": [("faults", 500, 6000), ("stream", 100, 1200)], "props": ["C11"], "level": "fault_enumeration", "suite_timeout": 2400,
+        "suites": [("faults", 500, 6000), ("stream", 100, 1200), ("resolver", 400, 6000)], "props": ["C11"], "level": "fault_enumeration", "suite_timeout": 2400,
         "nontrivial": lambda suite, case, impl: any(l.startswith("impl blk") or l.startswith("failnum") for l in case["lines"]),
         "rule": "cases = a file source over a generated chain in bundles (size 2/3/5/10, 1-6 preprocessor threads, start in the first half, stop near the end) with exactly one injected fault: OpenObject of one bundle fails; FileExists of one bundle fails persistently; the bytes of one bundle are damaged (bad header, length prefix enlarged, truncation inside a message, message made undecodable, I/O error while reading) at a chosen message; the preprocessor fails on one block; the handler fails at call k; plus the stream cases of C07 in which the user handler fails on one block (in half of them on the stop block itself). distinct = sha1 of header+body; non-trivial = at least one block was delivered before the fault / a handler failure was injected",
         "technique": "Lean 4 sequential model giving the allowed outcome set per fault (gap-free prefix bounded by the fault position + error class) + fault-injecting store around the real FileSource + watchdog for Run not returning + late-handler-call detection",
